@@ -1,3 +1,3 @@
 import Driver.Ty
 /-! Driver for group `ty` (C17, C16). -/
-def main : IO Unit := TF.Driver.run [TF.Driver.handleTy]
+def main : IO Unit := TF.Driver.run [TF.Driver.handleTy, TF.Driver.handleSerial]
